@@ -95,6 +95,8 @@ fn handle(ws: &[&str]) -> String {
             }
         }
         #[cfg(feature = "full")]
+        ["umx", exp, acc, index, seed] => gen_um::um_struct(exp, acc, index.parse().unwrap_or(0), seed.parse().unwrap_or(0)),
+        #[cfg(feature = "full")]
         ["eseq", exp, dir, api, key, msgs] => enc::eseq(exp, dir, api, key, msgs),
         #[cfg(feature = "full")]
         ["eseqf", exp, dir, key, frames] => enc::eseqf(exp, dir, key, frames),
